@@ -907,11 +907,11 @@ func (g *graph) dist(to, from string) (int64, bool) {
 
 // Goal: x <= y + c at instruction `at`.
 type Goal struct {
-	X, Y ssa.Value // nil = constant zero
-	XL   *lin      // explicit lin overrides X
-	YL   *lin
-	C    int64
-	Desc string
+	X, Y  ssa.Value // nil = constant zero
+	XL    *lin      // explicit lin overrides X
+	YL    *lin
+	C     int64
+	Desc  string
 	extra []ssa.Value // further values whose definitions are relevant
 	// edgeCond: an additional branch condition known to hold (the condition of the CFG edge over
 	// which a phi's incoming value arrives)
